@@ -55,29 +55,33 @@ theorem led_clamped (l : FLed) (op : FLedOp K) :
     cases toULong delay with
     | none => exact ⟨by simp, id⟩
     | some ms =>
-      simp only []
-      split
-      · refine ⟨?_, fun _ => by simp [LedInvL]⟩
+      generalize (if toCInt stepv ≤ 0 then (1 : Int) else toCInt stepv) = k
+      by_cases hk : 0 < k
+      · simp only [dif_pos hk]
+        refine ⟨?_, fun _ => by simp [LedInvL]⟩
         intro d hd
         simp only [dutiesL_append, List.mem_append] at hd
         rcases hd with hd | hd
         · exact fadeIn_duties _ _ _ _ _ (clamp255_bounds _).1 d hd
         · simp at hd; omega
-      · exact ⟨by simp, id⟩
+      · simp only [dif_neg hk]
+        exact ⟨by simp, id⟩
   | fadeOut stepv delay =>
     simp only [FLed.step]
     cases toULong delay with
     | none => exact ⟨by simp, id⟩
     | some ms =>
-      simp only []
-      split
-      · refine ⟨?_, fun _ => by simp [LedInvL]⟩
+      generalize (if toCInt stepv ≤ 0 then (1 : Int) else toCInt stepv) = k
+      by_cases hk : 0 < k
+      · simp only [dif_pos hk]
+        refine ⟨?_, fun _ => by simp [LedInvL]⟩
         intro d hd
         simp only [dutiesL_append, List.mem_append] at hd
         rcases hd with hd | hd
         · exact fadeOut_duties _ _ _ _ _ (clamp255_bounds _).2 d hd
         · simp at hd; omega
-      · exact ⟨by simp, id⟩
+      · simp only [dif_neg hk]
+        exact ⟨by simp, id⟩
   | flashPattern p delay =>
     simp only [FLed.step]
     split
@@ -180,7 +184,63 @@ theorem led_agrees (f : FLed) (h : Host.Led) (op : Host.LedOp K) (hrel : RelLed 
     RelLed (FLed.step f (ledOp op)).st (Host.Led.step h op).st ∧
     (FLed.step f (ledOp op)).defined = true ∧
     delaysOf (FLed.step f (ledOp op)).evs = (Host.Led.step h op).sleeps.map msOf := by
-  sorry
+  open Lemmas.C04 Lemmas.C19 in
+  obtain ⟨hb, hs⟩ := hrel
+  show _ ∧ _ ∧ delaysL _ = _
+  cases op with
+  | on => simp [ledOp, FLed.step, Host.Led.step, RelLed, Host.Led.setB]
+  | off => simp [ledOp, FLed.step, Host.Led.step, RelLed, Host.Led.setB]
+  | toggle =>
+    simp only [ledOp, FLed.step, Host.Led.step, RelLed, Host.Led.setB, hs]
+    cases h.state <;> simp
+  | setBrightness v =>
+    simp only [Host.Led.step, Host.Led.setBrightness] at hinv ⊢
+    split_ifs at hinv ⊢ with hbt
+    have hv := toInt_bounds hbt
+    simp [ledOp, FLed.step, FLed.setPwm, RelLed, toCInt, clamp255_id hv.1 hv.2]
+  | blink d times =>
+    obtain ⟨hd, n, rfl, hn, heq⟩ := host_blink_ok hinv
+    obtain ⟨ms, hms⟩ := toULong_of_not_lt hd
+    rw [heq]
+    have hm : msOf d = ms := by simp [msOf, hms]
+    simp only [ledOp, FLed.step, hms, toCInt_int, RelLed, Host.Led.setB, delaysL_append, delaysL_blinkLoop,
+      List.map_replicate, hm]
+    simp
+  | fadeIn stepv delay =>
+    obtain ⟨hd, k, hk, rfl, heq⟩ := host_fadeIn_ok hinv
+    obtain ⟨ms, hms⟩ := toULong_of_not_lt hd
+    rw [heq]
+    have hm : msOf delay = ms := by simp [msOf, hms]
+    have hk' : (if toCInt (Val.int k : Val K) ≤ 0 then 1 else toCInt (Val.int k : Val K)) = k := by
+      rw [toCInt_int, if_neg (by omega)]
+    simp only [ledOp, FLed.step, hms, hk', dif_pos hk, RelLed, Host.Led.setB, delaysL_append, fadeIn_delays,
+      hclamp_eq, hb, List.map_map]
+    simp [Function.comp_def, hm]
+  | fadeOut stepv delay =>
+    obtain ⟨hd, k, hk, rfl, heq⟩ := host_fadeOut_ok hinv
+    obtain ⟨ms, hms⟩ := toULong_of_not_lt hd
+    rw [heq]
+    have hm : msOf delay = ms := by simp [msOf, hms]
+    have hk' : (if toCInt (Val.int k : Val K) ≤ 0 then 1 else toCInt (Val.int k : Val K)) = k := by
+      rw [toCInt_int, if_neg (by omega)]
+    simp only [ledOp, FLed.step, hms, hk', dif_pos hk, RelLed, Host.Led.setB, delaysL_append, fadeOut_delays,
+      hclamp_eq, hb, List.map_map]
+    simp [Function.comp_def, hm]
+  | flashPattern p delay =>
+    obtain ⟨hd, heq⟩ := host_flash_ok hinv
+    obtain ⟨ms, hms⟩ := toULong_of_not_lt hd
+    have hm : msOf delay = ms := by simp [msOf, hms]
+    obtain ⟨ints, rfl⟩ := exists_ints p (hpat p delay rfl)
+    rw [heq] at hinv ⊢
+    simp only [ledOp, map_toInt_int, FLed.step]
+    cases ints with
+    | nil => simp [Host.Led.flashGo, RelLed, hb, hs]
+    | cons v rest =>
+      obtain ⟨q1, q2, q3⟩ := flash_agree f.pin ms delay (v :: rest) f h [] hinv hb hs
+      simp only [List.isEmpty_cons, Bool.false_eq_true, if_false, hms]
+      refine ⟨⟨q1, q2⟩, trivial, ?_⟩
+      rw [flashLoop_delays, q3]
+      simp [hm]
 
 /-- the level last written to the LED pin is the host's brightness (HIGH = 255, LOW = 0) -/
 def ledLevel : Ev → Option Int
@@ -194,7 +254,49 @@ theorem led_final_level (f : FLed) (h : Host.Led) (op : Host.LedOp K) (hrel : Re
     (hne : ∀ p d, op ≠ .flashPattern p d ∨ p ≠ [])
     (hpat : ∀ p d, op = .flashPattern p d → ∀ e ∈ p, ∃ n : Int, e = Val.int n) :
     ((FLed.step f (ledOp op)).evs.filterMap ledLevel).getLast? = some (Host.Led.step h op).st.brightness := by
-  sorry
+  open Lemmas.C04 Lemmas.C19 in
+  have hag := (led_agrees f h op hrel hinv hh hpat).1.1
+  rw [← hag]
+  show ((FLed.step f (ledOp op)).evs.filterMap levelL).getLast? = _
+  obtain ⟨hb, hs⟩ := hrel
+  cases op with
+  | on => simp [ledOp, FLed.step, levelL]
+  | off => simp [ledOp, FLed.step, levelL]
+  | toggle =>
+    simp only [ledOp, FLed.step]
+    cases f.state <;> simp [levelL]
+  | setBrightness v => simp [ledOp, FLed.step, FLed.setPwm, levelL]
+  | blink d times =>
+    obtain ⟨hd, n, rfl, hn, heq⟩ := host_blink_ok hinv
+    obtain ⟨ms, hms⟩ := toULong_of_not_lt hd
+    simp [ledOp, FLed.step, hms, levelL, List.filterMap_append, List.getLast?_append]
+  | fadeIn stepv delay =>
+    obtain ⟨hd, k, hk, rfl, heq⟩ := host_fadeIn_ok hinv
+    obtain ⟨ms, hms⟩ := toULong_of_not_lt hd
+    have hk' : (if toCInt (Val.int k : Val K) ≤ 0 then 1 else toCInt (Val.int k : Val K)) = k := by
+      rw [toCInt_int, if_neg (by omega)]
+    simp only [ledOp, FLed.step, hms, hk', dif_pos hk, List.filterMap_append, List.getLast?_append]
+    simp [levelL]
+  | fadeOut stepv delay =>
+    obtain ⟨hd, k, hk, rfl, heq⟩ := host_fadeOut_ok hinv
+    obtain ⟨ms, hms⟩ := toULong_of_not_lt hd
+    have hk' : (if toCInt (Val.int k : Val K) ≤ 0 then 1 else toCInt (Val.int k : Val K)) = k := by
+      rw [toCInt_int, if_neg (by omega)]
+    simp only [ledOp, FLed.step, hms, hk', dif_pos hk, List.filterMap_append, List.getLast?_append]
+    simp [levelL]
+  | flashPattern p delay =>
+    obtain ⟨hd, heq⟩ := host_flash_ok hinv
+    obtain ⟨ms, hms⟩ := toULong_of_not_lt hd
+    obtain ⟨ints, rfl⟩ := exists_ints p (hpat p delay rfl)
+    simp only [ledOp, map_toInt_int, FLed.step]
+    cases ints with
+    | nil =>
+      rcases hne _ _ with h1 | h1
+      · exact absurd rfl h1
+      · exact absurd rfl h1
+    | cons v rest =>
+      simp only [List.isEmpty_cons, Bool.false_eq_true, if_false, hms]
+      exact flashLoop_level _ _ _ _ (List.cons_ne_nil _ _)
 
 /-! ### RGBLed -/
 def rgbOp : Host.RGBOp K → FRgbOp K
